@@ -213,19 +213,32 @@ Qed.
 
 (* ---------------------------------------------------------------- C39 (3): dead sessions / accounts *)
 
-(* the token's session record is revoked, or its parent session record is revoked (while the
-   session record is there), or the account is outside its validity window *)
+(* a session record is over at ct: revoked, or past its expiry *)
+Lemma live_at_false ct st :
+  live_at ct st = false <-> st = SRevoked \/ exists e, st = SExpires e /\ e <= ct.
+Proof.
+  destruct st as [|e|]; cbn [live_at].
+  - split; [intros _; left; reflexivity | reflexivity].
+  - destruct (N.ltb_spec ct e) as [H|H].
+    + split; [discriminate | intros [E|(e' & [= <-] & H')]; [discriminate | lia]].
+    + split; [intros _; right; exists e; split; [reflexivity|exact H] | reflexivity].
+  - split; [discriminate | intros [E|(e' & E & _)]; discriminate].
+Qed.
+
+(* the token's OAuth2 session record is revoked or expired, or its parent session record is
+   revoked or expired (while the session record is there), or the account is outside its
+   validity window *)
 Definition dead (s : st) (t : tok) (ct : N) : Prop :=
-  (exists o, find_os (t_sid t) (o2s s) = Some o /\ os_state o = SRevoked) \/
-  (exists o p, find_os (t_sid t) (o2s s) = Some o /\ t_parent t = Some p /\
-               lookup p (uats s) = Some SRevoked) \/
+  (exists o, find_os (t_sid t) (o2s s) = Some o /\ live_at ct (os_state o) = false) \/
+  (exists o p us, find_os (t_sid t) (o2s s) = Some o /\ t_parent t = Some p /\
+                  lookup p (uats s) = Some us /\ live_at ct us = false) \/
   in_window s ct = false.
 
 Lemma dead_invalid s t ct : dead s t ct -> acct_valid s (t_sid t) (t_parent t) (t_iat t) ct = false.
 Proof.
-  unfold acct_valid. intros [(o & Hf & Hs) | [(o & p & Hf & Hp & Hu) | Hw]].
+  unfold acct_valid. intros [(o & Hf & Hs) | [(o & p & us & Hf & Hp & Hu & Hl) | Hw]].
   - rewrite Hf, Hs. cbn. apply andb_false_r.
-  - rewrite Hf, Hp, Hu. destruct (revoked (os_state o)); cbn; apply andb_false_r.
+  - rewrite Hf, Hp, Hu, Hl. destruct (negb (live_at ct (os_state o))); cbn; apply andb_false_r.
   - rewrite Hw. reflexivity.
 Qed.
 
@@ -366,19 +379,34 @@ Proof. split; intros k x []. Qed.
 
 (* ---------------------------------------------------------------- refutations of the full statements *)
 
-(* K2: a token whose parent session has expired (but has not been swept) is still active *)
+(* the parent session of the token has expired, swept or not *)
 Definition lapsed (s : st) (t : tok) (ct : N) : Prop :=
-  exists p e, t_parent t = Some p /\ lookup p (uats s) = Some (SExpires e) /\ e <= ct.
+  exists o p e, find_os (t_sid t) (o2s s) = Some o /\ t_parent t = Some p /\
+                lookup p (uats s) = Some (SExpires e) /\ e <= ct.
 
+Lemma lapsed_dead s t ct : lapsed s t ct -> dead s t ct.
+Proof.
+  intros (o & p & e & Hf & Hp & Hu & He). right. left. exists o, p, (SExpires e).
+  repeat split; try assumption. apply live_at_false. right. exists e. split; [reflexivity|exact He].
+Qed.
+
+(* K2 (documentation of the behaviour BEFORE fix 8607e8e): parent session expired at 10400 s and
+   not swept; at 10500 s the old validity function still said valid, the fixed one refuses *)
 Definition k2_st : st :=
   mkst None None [(0, SExpires (10400 * NS))]
        [mkos 1 (Some 0) (SExpires (10100 * NS + 57600 * NS)) (10100 * NS) 0].
 Definition k2_tok : tok := mktok 0 [0; 1] (Some 0) 1 10100 11000 67700 0.
 
 Lemma k2_lapsed : lapsed k2_st k2_tok (10500 * NS).
-Proof. exists 0, (10400 * NS). repeat split; try reflexivity. vm_compute. discriminate. Qed.
+Proof.
+  eexists. exists 0, (10400 * NS). repeat split; try reflexivity. vm_compute. discriminate.
+Qed.
 
-Lemma k2_active : introspect k2_tok false (10500 * NS) k2_st = RIntro true [0; 1].
+Lemma k2_prefix_valid :
+  acct_valid_prefix k2_st (t_sid k2_tok) (t_parent k2_tok) (t_iat k2_tok) (10500 * NS) = true.
+Proof. vm_compute. reflexivity. Qed.
+
+Lemma k2_now_inactive : introspect k2_tok false (10500 * NS) k2_st = RIntro false [].
 Proof. vm_compute. reflexivity. Qed.
 
 (* K1: reuse of a rotated refresh token within the second of its issue is accepted.
